@@ -17,6 +17,7 @@ type Cfg struct {
 	Depth    int  // nesting depth of the spec, default 2
 	MaxRep   int  // repetitions when deriving a sentence, default 3
 	RepOneIn int  // one atom in RepOneIn gets a '...' (default 4; 2 = biased to ambiguous specs)
+	OptHeavy bool // bias atoms towards options, folded groups and OPTIONS (long option runs)
 }
 
 func (c Cfg) norm() Cfg {
@@ -41,6 +42,7 @@ type specGen struct {
 	allowDD bool
 	ddUsed  bool
 	repIn   int
+	heavy   bool
 }
 
 // atom per the grammar: (opt | folded | OPTIONS | arg | group | optional | --) rep?
@@ -49,6 +51,9 @@ func (g *specGen) atom(depth int) *Node {
 	var n *Node
 	for try := 0; try < 50; try++ {
 		c := r.Intn(100)
+		if g.heavy && c < 28 && r.Intn(3) > 0 {
+			c = 28 + r.Intn(40)
+		}
 		switch {
 		case c < 28 && len(g.p.Args) > 0:
 			n = &Node{K: KArg, Arg: g.p.Args[r.Intn(len(g.p.Args))]}
@@ -150,7 +155,7 @@ func GenProg(r *rand.Rand, cfg Cfg) *Prog {
 	apool := []*ArgDecl{{Name: "X", Multi: true}, {Name: "Y", Multi: true}, {Name: "Z_2", Multi: true}}
 	na := 1 + r.Intn(3)
 	p.Args = apool[:na]
-	g := &specGen{r: r, p: p, allowDD: cfg.AllowDD, repIn: cfg.RepOneIn}
+	g := &specGen{r: r, p: p, allowDD: cfg.AllowDD, repIn: cfg.RepOneIn, heavy: cfg.OptHeavy}
 	p.AST = g.seq(cfg.Depth, true)
 	p.Spec = p.AST.String()
 	return p
